@@ -4,6 +4,7 @@ import (
 	"encoding/binary"
 	"errors"
 	"fmt"
+	"math"
 	"strings"
 )
 
@@ -151,13 +152,23 @@ func (aa ArchiveInfoList) validate() error {
 		return fmt.Errorf("no retentions")
 	}
 
-	off := metaSize + uint32(len(aa))*archiveInfoListSize
+	// NOTE: offsets, sizes and retentions are computed in 64 bit here
+	// so that values not representable in the 32-bit fields of the
+	// file format are rejected instead of silently wrapping around.
+	off := uint64(metaSize) + uint64(len(aa))*archiveInfoListSize
 	for i, a := range aa {
 		if err := a.validate(); err != nil {
 			return fmt.Errorf("invalid archive%v: %v", i, err)
 		}
-		if a.offset != off {
+		if uint64(a.offset) != off {
 			return fmt.Errorf("invalid archive%v: invalid offset got:%v, want:%v", i, a.offset, off)
+		}
+		if int64(a.secondsPerPoint)*int64(a.numberOfPoints) > math.MaxInt32 {
+			return fmt.Errorf("invalid archive%v: retention too long", i)
+		}
+		off += uint64(a.numberOfPoints) * pointSize
+		if off > math.MaxUint32 {
+			return fmt.Errorf("invalid archive%v: file size too large", i)
 		}
 
 		if i == len(aa)-1 {
@@ -180,8 +191,6 @@ func (aa ArchiveInfoList) validate() error {
 		if a.numberOfPoints < uint32(rNext.secondsPerPoint/a.secondsPerPoint) {
 			return fmt.Errorf("each archive must have at least enough points to consolidate to the next archive (archive%v consolidates %v of archive%v's points but it has only %v total points)", i+1, rNext.secondsPerPoint/a.secondsPerPoint, i, a.numberOfPoints)
 		}
-
-		off += uint32(a.numberOfPoints) * pointSize
 	}
 	return nil
 }
